@@ -134,10 +134,15 @@ func (c07) Generate(seed uint64, i int, tier string) *Scenario {
 				sc.Ops = append(sc.Ops, Op{Op: "uncancel"})
 			case m < 85:
 				sc.Ops = append(sc.Ops, Op{Op: "setmax", A: int64(r.Range(1, 400))})
-			case m < 92:
+			case m < 90:
 				sc.Ops = append(sc.Ops, Op{Op: "liftmax"})
-			default:
+			case m < 93:
 				sc.Ops = append(sc.Ops, Op{Op: "call", A: int64(r.Intn(3))})
+			default:
+				// other ways into the interpreter: a REPL chunk, an expression,
+				// a source file (cancellation and limits belong to the thread,
+				// whatever the entry point)
+				sc.Ops = append(sc.Ops, Op{Op: r.Pick([]string{"repl", "eval", "execfile"}), A: int64(r.Intn(3))})
 			}
 		}
 	}
@@ -652,6 +657,7 @@ func (p c07) runHist(sc *Scenario, prog *starlark.Program, ref c07run, S uint64,
 	var mSet bool
 	limit := uint64(math.MaxUint64)
 	var cancelledExecs, failedSince uint64
+	var replGlobals starlark.StringDict
 	// callable for "call" ops
 	g, err := prog.Init(c.Th, pre)
 	res.Evals++
@@ -682,11 +688,36 @@ func (p c07) runHist(sc *Scenario, prog *starlark.Program, ref c07run, S uint64,
 		case "liftmax":
 			limit = math.MaxUint64
 			c.Th.SetMaxExecutionSteps(math.MaxUint64)
-		case "exec", "call":
+		case "exec", "call", "repl", "eval", "execfile":
 			var err error
 			var need uint64
 			k := int(op.A) % len(auxProg)
-			if op.Op == "call" && len(fns) > 0 {
+			if op.Op == "repl" || op.Op == "eval" || op.Op == "execfile" {
+				need = 0 // cost not modelled: the cancelled-thread and limit clauses apply
+				pv := safeRun(func() {
+					switch op.Op {
+					case "repl":
+						f, perr := sc.D.FileOptions().Parse("chunk.star", aux[k], 0)
+						if perr != nil {
+							return
+						}
+						if replGlobals == nil {
+							replGlobals = starlark.StringDict{}
+							for name, v := range pre {
+								replGlobals[name] = v
+							}
+						}
+						err = starlark.ExecREPLChunk(f, c.Th, replGlobals)
+					case "eval":
+						_, err = starlark.EvalOptions(sc.D.FileOptions(), c.Th, "expr.star", "sorted([q * q for q in range(12)], reverse=True)[0] + len(str(probe))", pre)
+					default:
+						_, err = starlark.ExecFileOptions(sc.D.FileOptions(), c.Th, "file.star", aux[k], pre)
+					}
+				})
+				if pv != nil {
+					return
+				}
+			} else if op.Op == "call" && len(fns) > 0 {
 				// cost unknown: only the cancelled-case clauses apply
 				need = 0
 				pv := safeRun(func() { _, err = starlark.Call(c.Th, fns[int(op.A)%len(fns)], nil, nil) })
